@@ -103,7 +103,7 @@ EXTRA = {
     "C15": ("that _approximate_instances does not write to the approximator object (and its backend decision); that extract_label copies before it writes and _evaluate_group is wired with the evaluator's own settings", "backend_config_ok, backend_default_ok, extract_label_ok, group_wiring_ok"),
     "C12": ("the single-instance condition of _evaluate_group over both flags and all input types, what it turns the pair and the threshold into, the restriction of both arrays, the wiring of panoptic_evaluate, the steps of extract_label and which group class binarises", "single_cond_ok, single_mode_ok, group_restriction_ok, group_wiring_ok, extract_label_ok"),
     "C20": ("the cell classification of from_file, the four fields of ValueSummary, the None filter and what get_summary / get_summary_across_groups summarise", "cell_classification_ok, summary_fields_ok, summary_inputs_ok"),
-    "C18": ("the cell classification of the loader (kept exactly when finite)", "cell_classification_ok, model_classify_is_extracted"),
+    "C18": ("the cell classification of the loader (kept exactly when finite) and the layout of header, rows and loader columns", "cell_classification_ok, model_classify_is_extracted, header_layout_ok, row_layout_ok, loader_layout_ok"),
     "C06": ("the bodies of the Dice, IoU and RVD helpers over their four counts", "dice_body_ok, iou_body_ok, rvd_body_ok (lifted to dice / iou / rvd); centre-line Dice exercised in five memory layouts with and without label selection; large-scale masks (2^22 .. 2^24 voxels) judged by exact integer counts"),
     "C19": (None, "label_norm_idem / label_norm_order_free: the one list normalisation of a constructor (sorted set of labels) is proved idempotent and order-independent"),
     "C10": ("the slice bounds of _get_bbox_nd, the union / fallback / padding of _get_paired_crop and the backend decision by number of axes", "bbox_bounds_ok, bbox_covers, paired_crop_ok (lifted to bboxNd), backend_default_ok; end-to-end theorem pipeline_counts_invariant for instance input, threshold matching on IoU/Dice and the metrics IoU/Dice/RVD"),
